@@ -176,7 +176,7 @@ def po0' : Addr → Nat := fun _ => 0
 
 /-- a collection run in progress: file 1 (root 1, chunk 2) is the candidate, chunk 2 is pinned 5 times -/
 def gcWitness : State :=
-  { db := { data := [(1, ⟨1, 1, []⟩), (2, ⟨2, 1, []⟩)], access := [(1, 1)], gc := [(⟨1, 1, 1⟩, 2)], pin := [(2, 5)], gcSize := 2 }, capacity := 1, gcRunning := true, cands := [(⟨1, 1, 1⟩, 2)] }
+  { db := { data := [(1, ⟨1, 1, []⟩), (2, ⟨2, 1, []⟩)], access := [(1, 1)], gc := [(⟨1, 1, 1⟩, 2)], pin := [(2, 5)], gcSize := 2 }, capacity := 1, gcRunning := true, cands := [(⟨1, 1, 1⟩, 2)], runTarget := 0 }
 
 /-- full statement of the pin clause for the collection run -/
 def C14_pin_before_or_after_gc_full : Prop :=
